@@ -39,7 +39,11 @@ func (fpi *FilePathItem) Write(b []byte) (n int, err error) {
 		return n, errors.New("buflen too small")
 	}
 	fpi.Len = b[2]
-	fpi.Name = b[fileItemMinLen : fpi.Len+fileItemMinLen]
+	end := fileItemMinLen + int(fpi.Len)
+	if len(b) < end {
+		return n, errors.New("buflen too small")
+	}
+	fpi.Name = b[fileItemMinLen:end]
 
 	return int(fpi.Len) + fileItemMinLen, nil
 }
